@@ -11,7 +11,8 @@
 // `drive` runs the cases in a child process (`pipeline worker`): a panic in a goroutine of the
 // code under test (the runner's goroutines are not ours to guard) kills only the worker; the
 // supervisor then closes the interrupted case with a `panic` event and starts a new worker
-// for the remaining cases.  File layout: wire.go (format), script.go (bodies as terminal
+// for the remaining cases.  The supervisor prints the header of every case itself, the worker
+// only event lines and `end`, so the output is well-formed wherever the worker dies.  File layout: wire.go (format), script.go (bodies as terminal
 // scripts), gen.go (generators), drive.go (execution of one case).
 package main
 
@@ -61,8 +62,10 @@ func readCases(r io.Reader) []*Case {
 	}
 }
 
-// driveInProcess runs the cases in this process.  direct=true (worker): event lines go to
-// stdout unbuffered the moment they happen so that they survive a crash.
+// driveInProcess runs the cases in this process.  direct=true (worker): only the event lines
+// and `end` are printed (the supervisor prints the header itself, so a crash can never leave a
+// truncated header behind) and they go to stdout unbuffered the moment they happen so that
+// they survive a crash.
 func driveInProcess(in io.Reader, direct bool) {
 	sc := newScanner(in)
 	w := bufio.NewWriterSize(os.Stdout, 1<<16)
@@ -76,9 +79,9 @@ func driveInProcess(in io.Reader, direct bool) {
 			break
 		}
 		if direct {
-			driveCase(c, os.Stdout)
+			driveCase(c, os.Stdout, false)
 		} else {
-			driveCase(c, w)
+			driveCase(c, w, true)
 			w.Flush()
 		}
 	}
@@ -152,7 +155,7 @@ func supervise(cases []*Case) {
 			wk.kill()
 		}
 	}()
-	for _, c := range cases {
+	for k, c := range cases {
 		if wk == nil {
 			var err error
 			if wk, err = startWorker(); err != nil {
@@ -163,9 +166,11 @@ func supervise(cases []*Case) {
 		var hdr bytes.Buffer
 		c.writeHeader(&hdr)
 		hdr.WriteString("end\n")
+		// the header comes from the supervisor, the worker contributes event lines and `end`
+		c.writeHeader(out)
 		_, werr := wk.in.Write(hdr.Bytes())
 		// relay the worker's lines of this case; remember the last sequence number
-		seq, headerSeen, finished := 0, false, false
+		seq, finished := 0, false
 		timer := time.NewTimer(caseWatchdog)
 		for !finished && werr == nil {
 			select {
@@ -174,15 +179,14 @@ func supervise(cases []*Case) {
 					werr = io.ErrUnexpectedEOF
 					break
 				}
-				if strings.HasPrefix(line, "graph ") {
-					headerSeen = true
-				}
-				fmt.Fprintln(out, line)
 				if line == "end" {
 					finished = true
+					fmt.Fprintln(out, line)
 				} else if sp := strings.IndexByte(line, ' '); sp > 0 {
+					// anything that is not `<seq> <event>` is not relayed
 					if n, err := strconv.Atoi(line[:sp]); err == nil {
 						seq = n
+						fmt.Fprintln(out, line)
 					}
 				}
 			case <-timer.C:
@@ -195,8 +199,9 @@ func supervise(cases []*Case) {
 			wk.kill()
 			wk.crashReport(c.ID)
 			wk = nil
-			if !headerSeen {
-				c.writeHeader(out)
+			if seq <= 3 && k > 0 {
+				// goroutines left over from the previous case run in the same worker
+				fmt.Fprintf(os.Stderr, "pipeline: crash may belong to previous case %s\n", cases[k-1].ID)
 			}
 			fmt.Fprintf(out, "%d panic\nend\n", seq+1)
 		}
